@@ -714,6 +714,9 @@ class Flow:
                     for x in argl[1]:
                         if x.startswith('const:') or x.startswith('lit:'):
                             res.add('idx:' + x.split(':', 1)[1])
+                        elif re.fullmatch(r'a\d+', x):
+                            # indexed by a parameter: which element was selected is known at the call site
+                            res.add('idxof:' + x)
             elif std and nm in TRANSPARENT_ARG0 and argl:
                 res = set(argl[0])
                 if not dest['p']:
@@ -819,6 +822,15 @@ class Flow:
                         if m.group(1) and is_path_leaf(y) and not y.startswith('len('):
                             y = 'len(' + y + ')'
                         out.add(y)
+                continue
+            if lf.startswith('idxof:a'):
+                k = int(lf[7:])
+                if k - 1 < len(argl) and len(argl[k - 1]) == 1:
+                    for x in argl[k - 1]:
+                        if x.startswith('const:') or x.startswith('lit:'):
+                            out.add('idx:' + x.split(':', 1)[1])
+                        elif re.fullmatch(r'a\d+', x):
+                            out.add('idxof:' + x)
                 continue
             if lf.startswith('call:'):
                 p, k = self.call_ord.get(bi, ('?', 0))
